@@ -142,4 +142,53 @@ CHECKS["C19"] = (
     "analytic, mix, linearity, tone shift, dtype, axis); a wrong Nyquist-weight variant is rejected. The code is replayed "
     "at 1e-12 (1e-5 single precision) on ~18k calls; the real-sampled reader path is decided at N <= 16.",
     TB, "DESIGN.md §4 C19")
+CHECKS["C03"] = (
+    "TLA+ specs TimeShift.tla / ShiftOps.tla model-checked by TLC (operational nditer zero loop and crop window vs the "
+    "per-element declarative statement); TLC-computed DFT expectations (kernel Dft) replayed on pb.time_shift; tone-probe "
+    "traces validated by Trace_Shift.tla",
+    "TLC proves the operational model equals the property for all N <= 6 (9 thorough), seven sample shapes, every accepted "
+    "shift-array shape and the quarter-sample lattice (zero region per element, crop = edge removal, integer shifts move "
+    "samples, metadata unchanged) and rejects the un-repaired loop. ~3.5k (31k) generated cases with TLC's expected samples "
+    "(N <= 8) are replayed over dtypes, classes, shift forms and Dask: exact zeros, values at 1e-5, crop identity; larger N "
+    "(to 4096) by tone probes decided by TLC with CosSin.",
+    TB + " Values are judged at 1e-5*max|x| because the code casts its phase ramp to complex64; shifts |s| <= 1e-8 are a "
+    "no-op by np.allclose (named deviation TinyShiftIsNoOp, outside the lattice).", "DESIGN.md §4 C03")
+CHECKS["C04"] = (
+    "TLA+ spec FreqShift.tla model-checked by TLC (zero loop over the un-broadcast ft*N, scalar -> (1,)); expected spectra "
+    "and samples from TLC replayed on pb.freq_shift; impulse and tone probes validated by Trace_Shift.tla",
+    "As C03 in the frequency domain: ZeroBinsExact per element (boundary bin of whole-bin shifts unconstrained), whole-bin "
+    "shifts are circular moves, |shift| >= bandwidth gives zero, metadata unchanged, exhaustive for N <= 6 (9) and every "
+    "shift shape; the pinned loop is rejected. ~3.5k (31k) generated cases replayed (complex64/128, Baseband and DualPol, four "
+    "frequency units, NumPy/Dask); zero bins judged on the DFT of the output.",
+    TB, "DESIGN.md §4 C04")
+CHECKS["C12"] = (
+    "TLA+ spec Snippet.tla (operational transcription incl. int(t) truncation and residual shift vs declarative statement) "
+    "and the Pipeline instance MC_PipelineSnip, model-checked by TLC; every in-bounds request in three forms replayed on "
+    "pb.snippet (bitwise slice for whole t, TLC DFT interpolation for fractional t) + the shared pipeline replayer",
+    "Exhaustive within len <= 6 (9): exactly n samples, exact start, samples at the requested times, whole-sample = slice, "
+    "no zero fill, the three forms of t agree, refusals; a round-instead-of-int variant is rejected. ~3.8k (94k) replays incl. "
+    "t+n = len, n = 0, n = len, every out-of-range combination, Time without start time; duration/Time forms judged up to "
+    "time resolution.",
+    TB, "DESIGN.md §4 C12")
+CHECKS["C05"] = (
+    "TLA+ spec Dedisp.tla (exact delay / chirp laws, coherent crop) model-checked by TLC; recorded chirp arrays and "
+    "dedispersed signals validated by Trace_Dedisp.tla, which recomputes each bin's phase from the exact float arguments, "
+    "reduces it modulo one cycle on integers and evaluates CosSin",
+    "Crop, start-advance, round-trip and chirp-algebra invariants (ChirpIsDelay ties the chirp to the delay law exactly) are "
+    "exhaustive for len <= 8 on a quarter-sample lattice; three wrong models rejected. The law is decided per event on "
+    "thousands of seeded calls over DM +-1e-4..1e3, 100 MHz-10 GHz, kHz-100 MHz, N in {8,15,16,23,64,100}, nchan 1-4, all "
+    "alignments and reference positions; whole outputs from the TLA+ DFT for N <= 8, tones for larger N; supplied chirp and "
+    "DM/-DM round trip.",
+    TB + " Chirp tolerance 2e-6 + a per-event float64 phase-rounding budget derived in Trace_Dedisp.tla; a bounded-precision "
+    "(>= 106-bit) evaluator is cross-checked against exact Rat on marked events.", "DESIGN.md §4 C05")
+CHECKS["C06"] = (
+    "TLA+ spec Dedisp.tla: operational vs declarative incoherent realignment and the delay algebra model-checked by TLC; "
+    "Gen_Dedisp cases replayed on the real code; Trace_Dedisp.tla judges time_delay / sample_delay events by "
+    "cross-multiplication in Rat and incoherent_dedispersion events whose samples encode (time, channel)",
+    "Exhaustive for len <= 8, nchan <= 4, monotone integer delay vectors in -10..10 (RealignDecl, OnlyValidSources, "
+    "StartAdvance, NoWrap, delay antisymmetry/additivity); the law is decided on thousands of calls, 10 MHz-30 GHz in four "
+    "units, two DM units; every output sample of every radio class (NumPy/Dask, with/without start time, trailing dims) is "
+    "traced to its source through the stamped start time.",
+    TB + " Delays within 1e-6 of a half-integer are ambiguous (never a violation); returning fewer than all valid samples "
+    "is not a violation (the property says 'only').", "DESIGN.md §4 C06")
 NA = {}
